@@ -151,7 +151,7 @@ theorem length_filter_split {α : Type} (p : α → Bool) : ∀ (l : List α),
   | [] => rfl
   | a :: l => by
     have ih := length_filter_split p l
-    cases h : p a <;> simp [List.filter_cons, h] <;> omega
+    cases h : p a <;> simp [h] <;> omega
 
 /-! ### the context of one `rebuild`: old items keyed `f`, new keys `t` -/
 
@@ -233,6 +233,366 @@ theorem Ctx.length_le (c : Ctx f t old rem U ads) : t.length ≤ f.length + ads.
       exact hsub k hk)
     simpa using this
   omega
+
+theorem Ctx.movedWith_eq (c : Ctx f t old rem U ads) :
+    movedWith (old.map some) rem U = U.map fun m => (m, old[m.from_]?) := by
+  unfold movedWith
+  apply List.map_congr_left
+  intro m hm
+  rw [itemAt_applyWrites_none, if_neg (c.from_not_rem hm), itemAt_map_some]
+
+theorem Ctx.ndWrites_eq (c : Ctx f t old rem U ads) :
+    ndWrites (movedWith (old.map some) rem U)
+      = (U.filter fun m => !m.moveInDom).map fun m => (m.to_, old[m.from_]?) := by
+  rw [c.movedWith_eq, ndWrites, List.filter_map, List.map_map]
+  rfl
+
+theorem Ctx.mem_dPlacements (c : Ctx f t old rem U ads) {p : Nat} {it : Item} :
+    (p, it) ∈ dPlacements (movedWith (old.map some) rem U) ↔
+      ∃ m ∈ U, m.moveInDom = true ∧ m.to_ = p ∧ old[m.from_]? = some it := by
+  rw [c.movedWith_eq, dPlacements, List.filter_map, List.mem_filterMap]
+  constructor
+  · rintro ⟨mc, hmc, h⟩
+    obtain ⟨m, hm, rfl⟩ := List.mem_map.mp hmc
+    obtain ⟨hmU, hd⟩ := List.mem_filter.mp hm
+    simp only [Option.map_eq_some_iff, Prod.mk.injEq] at h
+    obtain ⟨it', h1, h2, h3⟩ := h
+    subst h3
+    exact ⟨m, hmU, by simpa using hd, h2, h1⟩
+  · rintro ⟨m, hm, hd, rfl, hit⟩
+    exact ⟨(m, old[m.from_]?), List.mem_map.mpr ⟨m, List.mem_filter.mpr ⟨hm, by simpa using hd⟩, rfl⟩,
+      by simp [hit]⟩
+
+theorem Ctx.dPlacements_pos_sublist (c : Ctx f t old rem U ads) :
+    ((dPlacements (movedWith (old.map some) rem U)).map (·.1)).Sublist (U.map (·.to_)) := by
+  rw [c.movedWith_eq, dPlacements, List.filter_map]
+  have : ∀ (l : List DiffOpMove),
+      (((l.map fun m => (m, old[m.from_]?)).filterMap
+        fun mc => mc.2.map fun it => (mc.1.to_, it)).map (·.1)).Sublist (l.map (·.to_)) := by
+    intro l
+    induction l with
+    | nil => simp
+    | cons m l ih =>
+      simp only [List.map_cons, List.filterMap_cons]
+      cases old[m.from_]? with
+      | none => exact ih.cons _
+      | some it => exact ih.cons_cons _
+  exact (this _).trans (List.Sublist.map _ List.filter_sublist)
+
+theorem Ctx.ndWrites_pos_sublist (c : Ctx f t old rem U ads) :
+    ((ndWrites (movedWith (old.map some) rem U)).map (·.1)).Sublist (U.map (·.to_)) := by
+  rw [c.ndWrites_eq, List.map_map]
+  exact List.Sublist.map _ List.filter_sublist
+
+theorem mem_addPlacements {bs : Nat} {to : List Key} {as : List DiffOpAdd} : ∀ {next : Nat} {p : Nat} {it : Item},
+    (p, it) ∈ addPlacements bs to next as → it.key = to[p]?.getD 0 ∧ p ∈ as.map (·.at_) := by
+  induction as with
+  | nil => intro _ _ _ h; simp [addPlacements] at h
+  | cons a as ih =>
+    intro next p it h
+    simp only [addPlacements, List.mem_cons, Prod.mk.injEq] at h
+    rcases h with ⟨rfl, rfl⟩ | h
+    · simp
+    · obtain ⟨h1, h2⟩ := ih h
+      exact ⟨h1, by simp [h2]⟩
+
+theorem exists_addPlacement {bs : Nat} {to : List Key} {as : List DiffOpAdd} : ∀ {next : Nat} {a : DiffOpAdd},
+    a ∈ as → ∃ it, (a.at_, it) ∈ addPlacements bs to next as := by
+  induction as with
+  | nil => intro _ _ h; simp at h
+  | cons a' as ih =>
+    intro next a h
+    simp only [List.mem_cons] at h
+    rcases h with rfl | h
+    · exact ⟨{ key := to[a.at_]?.getD 0, nodes := List.range' next bs }, by simp [addPlacements]⟩
+    · obtain ⟨it, hit⟩ := ih (next := next + bs) h
+      exact ⟨it, by simp [addPlacements, hit]⟩
+
+/-- `rendered_items` before the final drain -/
+def storage7 (old : List Item) (rem : List Nat) (U : List DiffOpMove) (ads : List DiffOpAdd)
+    (bs : Nat) (to : List Key) (next : Nat) : List (Option Item) :=
+  applyWrites (storage4 (old.map some) rem U ads.length)
+    ((dPlacements (movedWith (old.map some) rem U) ++ addPlacements bs to next ads).map
+      fun p => (p.1, some p.2))
+
+theorem Ctx.itemAt_storage3 (_c : Ctx f t old rem U ads) (n j : Nat) :
+    itemAt (storage2 (old.map some) rem U ++ List.replicate n none) j
+      = if j ∈ rem ∨ j ∈ U.map (·.from_) then none else old[j]? := by
+  have hU : (U.map fun m => (m.from_, (none : Option Item))) = (U.map (·.from_)).map fun a => (a, none) := by
+    simp [List.map_map, Function.comp_def]
+  rw [itemAt_append_replicate_none, storage2, hU, itemAt_applyWrites_none, itemAt_applyWrites_none,
+    itemAt_map_some]
+  by_cases h1 : j ∈ rem <;> by_cases h2 : j ∈ U.map (·.from_) <;> simp [h1, h2]
+
+theorem storage7_length (old : List Item) (rem : List Nat) (U : List DiffOpMove) (ads : List DiffOpAdd)
+    (bs : Nat) (to : List Key) (next : Nat) :
+    (storage7 old rem U ads bs to next).length = old.length + ads.length := by
+  simp [storage7, storage4, storage2]
+
+/-- a position that no move and no addition targets keeps what the move-out left there -/
+theorem Ctx.storage7_untouched (c : Ctx f t old rem U ads) (bs : Nat) (next j : Nat)
+    (h1 : j ∉ U.map (·.to_)) (h2 : j ∉ ads.map (·.at_)) :
+    itemAt (storage7 old rem U ads bs t next) j
+      = if j ∈ rem ∨ j ∈ U.map (·.from_) then none else old[j]? := by
+  rw [storage7, itemAt_applyWrites_of_not_mem, storage4, itemAt_applyWrites_of_not_mem, c.itemAt_storage3]
+  · exact fun h => h1 (c.ndWrites_pos_sublist.subset h)
+  · simp only [List.map_map, Function.comp_def, List.map_append, List.mem_append, not_or]
+    refine ⟨fun h => h1 (c.dPlacements_pos_sublist.subset ?_), ?_⟩
+    · simpa [Function.comp_def] using h
+    · intro h
+      rw [List.mem_map] at h
+      obtain ⟨⟨p, it⟩, hp, rfl⟩ := h
+      exact h2 (mem_addPlacements hp).2
+
+/-- the target of a move holds the moved item -/
+theorem Ctx.storage7_moved (c : Ctx f t old rem U ads) (bs : Nat) (next : Nat) {m : DiffOpMove} (hm : m ∈ U) :
+    itemAt (storage7 old rem U ads bs t next) m.to_ = old[m.from_]? := by
+  have hto := c.sp.to_nodup c.hf c.ht
+  have hlen : m.to_ < old.length + ads.length := by
+    have := c.to_lt hm; have := c.length_le; have := c.old_length; omega
+  -- no addition targets `m.to_`
+  have hnotadd : m.to_ ∉ (addPlacements bs t next ads).map (·.1) := by
+    intro h
+    rw [addPlacements_map_fst] at h
+    obtain ⟨k, hk, hkf⟩ := isAdd_iff.mp (c.sp.mem_ads.mp h)
+    obtain ⟨_, k', hk1, hk2⟩ := (c.sp.mem_pairs c.ht).mp ⟨m, hm, rfl, rfl⟩
+    rw [hk] at hk2
+    simp only [Option.some.injEq] at hk2
+    subst hk2
+    exact hkf (List.mem_of_getElem? hk1)
+  obtain ⟨it, hit⟩ : ∃ it, old[m.from_]? = some it :=
+    ⟨_, List.getElem?_eq_getElem (by have := c.from_lt hm; have := c.old_length; omega)⟩
+  by_cases hd : m.moveInDom = true
+  · -- stored by the DOM move-in loop
+    rw [storage7, hit]
+    apply itemAt_applyWrites_of_mem
+    · rw [List.map_map, List.map_append, List.nodup_append]
+      refine ⟨?_, ?_, ?_⟩
+      · exact List.Nodup.sublist (by simpa [Function.comp_def] using c.dPlacements_pos_sublist) hto
+      · have := c.sp.ads_nodup
+        simpa [Function.comp_def, addPlacements_map_fst] using this
+      · intro a ha b hb hab
+        subst hab
+        have ha' : a ∈ U.map (·.to_) := c.dPlacements_pos_sublist.subset (by simpa [Function.comp_def] using ha)
+        obtain ⟨m', hm', rfl⟩ := List.mem_map.mp ha'
+        have hb' : m'.to_ ∈ ads.map (·.at_) := by
+          simpa [Function.comp_def, addPlacements_map_fst] using hb
+        obtain ⟨k, hk, hkf⟩ := isAdd_iff.mp (c.sp.mem_ads.mp hb')
+        obtain ⟨_, k', hk1, hk2⟩ := (c.sp.mem_pairs c.ht).mp ⟨m', hm', rfl, rfl⟩
+        rw [hk] at hk2
+        simp only [Option.some.injEq] at hk2
+        subst hk2
+        exact hkf (List.mem_of_getElem? hk1)
+    · rw [List.mem_map]
+      exact ⟨(m.to_, it), List.mem_append_left _ (c.mem_dPlacements.mpr ⟨m, hm, hd, rfl, hit⟩), rfl⟩
+    · simpa [storage4, storage2] using hlen
+  · -- stored by the storage-only move-in loop, not touched afterwards
+    have hd' : m.moveInDom = false := by simpa using hd
+    rw [storage7, itemAt_applyWrites_of_not_mem, storage4]
+    · apply itemAt_applyWrites_of_mem
+      · exact List.Nodup.sublist c.ndWrites_pos_sublist hto
+      · rw [c.ndWrites_eq, List.mem_map]
+        exact ⟨m, List.mem_filter.mpr ⟨hm, by simp [hd']⟩, rfl⟩
+      · simpa [storage2] using hlen
+    · simp only [List.map_map, Function.comp_def, List.map_append, List.mem_append, not_or]
+      refine ⟨?_, by simpa [Function.comp_def] using hnotadd⟩
+      intro h
+      rw [List.mem_map] at h
+      obtain ⟨⟨p, it'⟩, hp, hpe⟩ := h
+      simp only at hpe
+      subst hpe
+      obtain ⟨m', hm', hd'', hto', _⟩ := c.mem_dPlacements.mp hp
+      have := eq_of_mem_of_nodup_map hto hm' hm hto'
+      subst this
+      simp [hd'] at hd''
+
+/-- the target of an addition holds an item built for the new key -/
+theorem Ctx.storage7_added (c : Ctx f t old rem U ads) (bs : Nat) (next : Nat) {a : DiffOpAdd} (ha : a ∈ ads) :
+    ∃ it, itemAt (storage7 old rem U ads bs t next) a.at_ = some it ∧
+      (a.at_, it) ∈ addPlacements bs t next ads ∧ t[a.at_]? = some it.key := by
+  obtain ⟨it, hit⟩ := exists_addPlacement (bs := bs) (to := t) (next := next) ha
+  refine ⟨it, ?_, hit, ?_⟩
+  · have hto := c.sp.to_nodup c.hf c.ht
+    rw [storage7]
+    apply itemAt_applyWrites_of_mem
+    · rw [List.map_map, List.map_append, List.nodup_append]
+      refine ⟨?_, ?_, ?_⟩
+      · exact List.Nodup.sublist (by simpa [Function.comp_def] using c.dPlacements_pos_sublist) hto
+      · have := c.sp.ads_nodup
+        simpa [Function.comp_def, addPlacements_map_fst] using this
+      · intro x hx b hb hab
+        subst hab
+        have hx' : x ∈ U.map (·.to_) := c.dPlacements_pos_sublist.subset (by simpa [Function.comp_def] using hx)
+        obtain ⟨m', hm', rfl⟩ := List.mem_map.mp hx'
+        have hb' : m'.to_ ∈ ads.map (·.at_) := by
+          simpa [Function.comp_def, addPlacements_map_fst] using hb
+        obtain ⟨k, hk, hkf⟩ := isAdd_iff.mp (c.sp.mem_ads.mp hb')
+        obtain ⟨_, k', hk1, hk2⟩ := (c.sp.mem_pairs c.ht).mp ⟨m', hm', rfl, rfl⟩
+        rw [hk] at hk2
+        simp only [Option.some.injEq] at hk2
+        subst hk2
+        exact hkf (List.mem_of_getElem? hk1)
+    · rw [List.mem_map]
+      exact ⟨(a.at_, it), List.mem_append_right _ hit, rfl⟩
+    · have := c.at_lt ha; have := c.length_le; have := c.old_length
+      simp [storage4, storage2]; omega
+  · have h1 := (mem_addPlacements hit).1
+    have h2 := c.at_lt ha
+    rw [h1, List.getElem?_eq_getElem h2]
+    simp
+
+/-- every index of the new sequence holds the right item before the drain -/
+theorem Ctx.storage7_at (c : Ctx f t old rem U ads) (bs next : Nat) {j : Nat} {k : Key} (hk : t[j]? = some k) :
+    ∃ it, itemAt (storage7 old rem U ads bs t next) j = some it ∧ it.key = k ∧
+      (∀ i : Nat, f[i]? = some k → old[i]? = some it) ∧
+      (k ∉ f → (j, it) ∈ addPlacements bs t next ads) := by
+  by_cases hkf : k ∈ f
+  · obtain ⟨i, hi⟩ := List.mem_iff_getElem?.mp hkf
+    have hilt := (List.getElem?_eq_some_iff.mp hi).1
+    obtain ⟨it, hit, hitk⟩ := c.old_get hi
+    have huniq : ∀ i' : Nat, f[i']? = some k → old[i']? = some it := by
+      intro i' hi'
+      have := (List.getElem?_inj hilt c.hf).mp (hi.trans hi'.symm)
+      subst this; exact hit
+    refine ⟨it, ?_, hitk, huniq, fun h => absurd hkf h⟩
+    by_cases hij : i = j
+    · subst hij
+      -- in place
+      rw [c.storage7_untouched bs next i, if_neg, hit]
+      · rintro (h | h)
+        · obtain ⟨k', hk', hkt⟩ := isRem_iff.mp (c.sp.mem_rem.mp h)
+          rw [hi] at hk'; simp only [Option.some.injEq] at hk'; subst hk'
+          exact hkt (List.mem_of_getElem? hk)
+        · obtain ⟨m, hm, hmf⟩ := List.mem_map.mp h
+          obtain ⟨hne, k', hk1, hk2⟩ := (c.sp.mem_pairs c.ht).mp ⟨m, hm, rfl, rfl⟩
+          rw [hmf, hi] at hk1; simp only [Option.some.injEq] at hk1; subst hk1
+          have hjlt := (List.getElem?_eq_some_iff.mp hk).1
+          have := (List.getElem?_inj hjlt c.ht).mp (hk.trans hk2.symm)
+          exact hne (hmf.trans this)
+      · intro h
+        obtain ⟨m, hm, hmt⟩ := List.mem_map.mp h
+        obtain ⟨hne, k', hk1, hk2⟩ := (c.sp.mem_pairs c.ht).mp ⟨m, hm, rfl, rfl⟩
+        rw [hmt, hk] at hk2; simp only [Option.some.injEq] at hk2; subst hk2
+        have := (List.getElem?_inj hilt c.hf).mp (hi.trans hk1.symm)
+        exact hne (this.symm.trans hmt.symm ▸ rfl)
+      · intro h
+        obtain ⟨k', hk', hkf'⟩ := isAdd_iff.mp (c.sp.mem_ads.mp h)
+        rw [hk] at hk'; simp only [Option.some.injEq] at hk'; subst hk'
+        exact hkf' hkf
+    · obtain ⟨m, hm, hmf, hmt⟩ := (c.sp.mem_pairs c.ht).mpr ⟨hij, k, hi, hk⟩
+      have := c.storage7_moved bs next hm
+      rw [hmf, hmt] at this
+      rw [this, hit]
+  · have hadd : j ∈ ads.map (·.at_) := c.sp.mem_ads.mpr (isAdd_iff.mpr ⟨k, hk, hkf⟩)
+    obtain ⟨a, ha, rfl⟩ := List.mem_map.mp hadd
+    obtain ⟨it, h1, h2, h3⟩ := c.storage7_added bs next ha
+    rw [hk] at h3
+    simp only [Option.some.injEq] at h3
+    exact ⟨it, h1, h3.symm, fun i hi => absurd (List.mem_of_getElem? hi) hkf, fun _ => h2⟩
+
+/-- nothing is left behind the new sequence -/
+theorem Ctx.storage7_beyond (c : Ctx f t old rem U ads) (bs next : Nat) {j : Nat} (hj : t.length ≤ j) :
+    itemAt (storage7 old rem U ads bs t next) j = none := by
+  rw [c.storage7_untouched bs next j]
+  · split
+    · rfl
+    · rename_i hn
+      simp only [not_or] at hn
+      cases hf : f[j]? with
+      | none =>
+        have : old.length ≤ j := by
+          rw [c.old_length]
+          exact Nat.le_of_not_lt fun h => by simp [List.getElem?_eq_getElem h] at hf
+        exact List.getElem?_eq_none this
+      | some k =>
+        exfalso
+        by_cases hkt : k ∈ t
+        · obtain ⟨j', hj'⟩ := List.mem_iff_getElem?.mp hkt
+          have hlt := (List.getElem?_eq_some_iff.mp hj').1
+          obtain ⟨m, hm, hmf, _⟩ := (c.sp.mem_pairs c.ht).mpr ⟨(by omega : j ≠ j'), k, hf, hj'⟩
+          exact hn.2 (List.mem_map.mpr ⟨m, hm, hmf⟩)
+        · exact hn.1 (c.sp.mem_rem.mpr (isRem_iff.mpr ⟨k, hf, hkt⟩))
+  · intro h
+    obtain ⟨m, hm, rfl⟩ := List.mem_map.mp h
+    have := c.to_lt hm; omega
+  · intro h
+    obtain ⟨a, ha, rfl⟩ := List.mem_map.mp h
+    have := c.at_lt ha; omega
+
+end
+
+/-! ### the drain -/
+
+theorem map_some_somes : ∀ (L : List (Option Item)), (∀ x ∈ L, x.isSome) → (somes L).map some = L
+  | [], _ => rfl
+  | none :: _, h => by simpa using h none (by simp)
+  | some it :: L, h => by
+    have := map_some_somes L (fun x hx => h x (by simp [hx]))
+    simp [somes] at this ⊢
+    exact this
+
+theorem drain_eq_take (S : List (Option Item)) (n : Nat)
+    (h1 : ∀ j, j < n → (itemAt S j).isSome) (h2 : ∀ j, n ≤ j → itemAt S j = none) (_hn : n ≤ S.length) :
+    S.filter Option.isSome = S.take n ∧ (∀ x ∈ S.take n, x.isSome) := by
+  have hall : ∀ x ∈ S.take n, x.isSome := by
+    intro x hx
+    obtain ⟨j, hj⟩ := List.mem_iff_getElem?.mp hx
+    rw [List.getElem?_take] at hj
+    split at hj
+    · rename_i hlt
+      have := h1 j hlt
+      simp only [itemAt, hj] at this
+      simpa using this
+    · simp at hj
+  have hnone : ∀ x ∈ S.drop n, ¬ x.isSome = true := by
+    intro x hx
+    obtain ⟨j, hj⟩ := List.mem_iff_getElem?.mp hx
+    rw [List.getElem?_drop] at hj
+    have := h2 (n + j) (by omega)
+    simp only [itemAt, hj] at this
+    cases x <;> simp_all
+  refine ⟨?_, hall⟩
+  conv => lhs; rw [← List.take_append_drop n S]
+  rw [List.filter_append, List.filter_eq_self.mpr hall, List.filter_eq_nil_iff.mpr hnone]
+  simp
+
+theorem somes_take_get (S : List (Option Item)) (n j : Nat) (hall : ∀ x ∈ S.take n, x.isSome) (hj : j < n) :
+    (somes (S.take n))[j]? = itemAt S j := by
+  have h := map_some_somes _ hall
+  have : ((somes (S.take n)).map some)[j]? = (S.take n)[j]? := by rw [h]
+  rw [List.getElem?_map, List.getElem?_take, if_pos hj] at this
+  unfold itemAt
+  rw [← this]
+  cases (somes (S.take n))[j]? <;> rfl
+
+section
+variable {f t : List Key} {old : List Item} {rem : List Nat} {U : List DiffOpMove} {ads : List DiffOpAdd}
+
+/-- **storage after the drain**: exactly one entry per new key, in the new order; entries of keys that were
+there before are the old items, the others were built for an addition -/
+theorem Ctx.final_storage (c : Ctx f t old rem U ads) (bs next : Nat) :
+    let F := (storage7 old rem U ads bs t next).filter Option.isSome
+    F = (somes F).map some ∧ (somes F).length = t.length ∧
+    ∀ j k, t[j]? = some k → ∃ it, (somes F)[j]? = some it ∧ it.key = k ∧
+      (∀ i : Nat, f[i]? = some k → old[i]? = some it) ∧ (k ∉ f → (j, it) ∈ addPlacements bs t next ads) := by
+  have hlen : t.length ≤ (storage7 old rem U ads bs t next).length := by
+    rw [storage7_length, c.old_length]; exact c.length_le
+  obtain ⟨hF, hall⟩ := drain_eq_take (storage7 old rem U ads bs t next) t.length
+    (by
+      intro j hj
+      obtain ⟨it, hit, _⟩ := c.storage7_at bs next (List.getElem?_eq_getElem hj)
+      simp [hit])
+    (fun j hj => c.storage7_beyond bs next hj) hlen
+  simp only
+  rw [hF]
+  refine ⟨(map_some_somes _ hall).symm, ?_, ?_⟩
+  · have := congrArg List.length (map_some_somes _ hall)
+    simp only [List.length_map, List.length_take] at this
+    omega
+  · intro j k hk
+    have hj := (List.getElem?_eq_some_iff.mp hk).1
+    obtain ⟨it, hit, rest⟩ := c.storage7_at bs next hk
+    exact ⟨it, by rw [somes_take_get _ _ _ hall hj, hit], rest⟩
 
 end
 
